@@ -159,10 +159,13 @@ def run(ctx, res):
     # directed: a function-valued term map in a rule whose object is a referencing object map with ONE join condition; child rows share join keys
     for rep_j in range(ctx.scale(9, 60)):
         keys = ['a', 'b']
-        crows = [[str(i + 1), ctx.rng.choice(keys), ctx.rng.choice(['x', 'Y', 'zed', 'a,b'])] for i in range(ctx.rng.choice([3, 4, 5]))]
+        vals_j = ['x', 'Yy', 'zed', 'a,b', 'ab', 'q']
+        crows = [[str(i + 1), keys[(i // 2) % 2] if rep_j % 2 else ctx.rng.choice(keys), vals_j[(i + rep_j) % len(vals_j)]] for i in range(3 + rep_j % 3)]
         prows = [[k, 'n' + k] for k in keys]
         where = ['predicate', 'graph', 'subject'][rep_j % 3]
-        execs = [{'id': EX + 'exec/J1', 'fun': ctx.rng.choice([GREL + 'toUpperCase', MK + 'string_split_explode']), 'inputs': [[GREL + 'valueParam', 'ref', 'c1']]}]
+        # the function in turn: scalar, list-valued, and a user-defined one that gives the EMPTY list for some child rows only (rows that share their join key with others)
+        fun_j = [GREL + 'toUpperCase', MK + 'string_split_explode', EX + 'fn/evens'][(rep_j // 3) % 3]
+        execs = [{'id': EX + 'exec/J1', 'fun': fun_j, 'inputs': [[EX + 'fn/p_v' if fun_j.endswith('evens') else GREL + 'valueParam', 'ref', 'c1']]}]
         if execs[0]['fun'].endswith('explode'):
             execs[0]['inputs'].append([GREL + 'param_string_sep', 'const', ','])
         fm = tm('exec', EX + 'exec/J1', 'iri', 'iri')
@@ -176,6 +179,18 @@ def run(ctx, res):
                               {'id': EX + 'tm/P', 'src': 'S1', 'nonasserted': False, 'subj': tm('templ', EX + 'p/{pk}'), 'sjoins': [], 'classes': [], 'sgraphs': [],
                                'poms': [{'preds': [tm('const', EX + 'p/name')], 'objs': [{'m': tm('ref', 'name'), 'lang': None, 'dt': None, 'joins': []}], 'graphs': []}]}],
                       'execs': execs})
+    # directed: a list-valued user-defined function over the ELEMENTS of an inner list-valued execution, empty for some elements of a row and not for others
+    for rep_n in range(ctx.scale(6, 40)):
+        nrows = [[str(i + 1), ['ab,c,de', 'x,yz', 'pq', 'a,b,c', 'mn,o'][(i + rep_n) % 5], 'z'] for i in range(2 + rep_n % 3)]
+        execs = [{'id': EX + 'exec/N0', 'fun': MK + 'string_split_explode', 'inputs': [[GREL + 'valueParam', 'ref', 'c1'], [GREL + 'param_string_sep', 'const', ',']]},
+                 {'id': EX + 'exec/N1', 'fun': EX + 'fn/evens', 'inputs': [[EX + 'fn/p_v', 'exec', EX + 'exec/N0']]}]
+        pos = ['object', 'subject', 'graph'][rep_n % 3]
+        fmn = tm('exec', EX + 'exec/N1', 'iri', 'lit' if pos == 'object' else 'iri')
+        cases.append({'cfg': {'nquads': True, 'mode': ['NO', 'PARTIAL-AGGREGATIONS', 'MAXIMAL'][rep_n % 3], 'udfs': 'udfs.py'},
+                      'sources': [{'key': 'S0', 'kind': 'csv', 'cols': ['id', 'c1', 'c2'], 'rows': nrows}],
+                      'doc': [{'id': EX + 'tm/T', 'src': 'S0', 'nonasserted': False, 'subj': tm('exec', EX + 'exec/N1', 'iri', 'bnode') if pos == 'subject' else tm('templ', EX + 'r/{id}'), 'sjoins': [], 'classes': [], 'sgraphs': [],
+                               'poms': [{'preds': [tm('const', EX + 'p/n')], 'objs': [{'m': fmn if pos == 'object' else tm('ref', 'c2', 'lit'), 'lang': None, 'dt': None, 'joins': []}],
+                                         'graphs': [tm('exec', EX + 'exec/N1')] if pos == 'graph' else []}]}], 'execs': execs})
     batch = family.Batch(ctx)
     recs = batch.run(cases)
     for rec in recs:
